@@ -138,7 +138,7 @@ def _check_main(ctx, rep: Report):
     for row in r["rows"]:
         d = row["dec"]
         if row["kind"] == "ok" and not d.get("class_do_not_copy") and not row["stores"] \
-                and not (d.get("ismethod") and d.get("bound_to_self")) and any(k in d for k in ("attr_do_not_copy", "ismethod")):
+                and (row.get("entered") or any(k in d for k in ("attr_do_not_copy", "ismethod", "attr_spec_found"))):
             dropped.append(str(d))
     rep.oblige("C10.DC", "DeepCopyMethod.deepcopy", not dropped)
     rep.evaluations += len(r["rows"])
